@@ -111,9 +111,30 @@ Definition run_with (bin : binop -> num -> num -> outcome num) (exactf : num -> 
       end
   | _ => [9]
   end.
+(* literal family: `20 op pos fb b n c1..cn` - one operand is an integer literal given by its source text.
+   The literal is lexed by [lex_number_text]; from there on it is the literal operand of its value
+   (Props literal_text_value: a well-formed text denotes exactly the number its digits spell). *)
+Definition run_literal (run0 : list Z -> list Z) (inp : list Z) : list Z :=
+  match inp with
+  | o :: pos :: fb :: b :: n :: cs =>
+      if negb (n =? lenZ cs) then [9] else
+      match lex_number_text cs with
+      | None => [7]
+      | Some (Err c) => if o =? 7 then [5; 100 + c; 100 + c; 100 + c] else [1; c]
+      | Some (Ok v) =>
+          let z := num_val v in
+          if o =? 8 then [0; z]
+          else if o =? 6 then run0 [6; 0; z; 0; 0]
+          else if pos =? 0 then run0 [o; 0; z; fb; b] else run0 [o; fb; b; 0; z]
+      | Some _ => [9]
+      end
+  | _ => [9]
+  end.
 (* the code as it is now, and as it was before the fix: commits (kept to show what they repaired) *)
-Definition run (inp : list Z) : list Z := match norm_case inp with Some i => run_with model_binop as_f64_exact i | None => [9] end.
-Definition run_before_fix (inp : list Z) : list Z := match norm_case inp with Some i => run_with model_binop_before_fix as_f64_exact_before_fix i | None => [9] end.
+Definition run0 (inp : list Z) : list Z := match norm_case inp with Some i => run_with model_binop as_f64_exact i | None => [9] end.
+Definition run (inp : list Z) : list Z := match inp with 20 :: rest => run_literal run0 rest | _ => run0 inp end.
+Definition run_before_fix0 (inp : list Z) : list Z := match norm_case inp with Some i => run_with model_binop_before_fix as_f64_exact_before_fix i | None => [9] end.
+Definition run_before_fix (inp : list Z) : list Z := match inp with 20 :: rest => run_literal run_before_fix0 rest | _ => run_before_fix0 inp end.
 
 (* ---- the oracle: is [out] an acceptable answer for the case? ----
    [1] yes | [0; reason] no (2 crash, 4 wrong integer, 5 error where the exact result is due,
